@@ -12,6 +12,7 @@ import os
 import random
 import re
 import shutil
+import time
 
 from .. import compare_impl as ci
 from .. import tlc, tracecheck
@@ -117,6 +118,13 @@ def random_struct_pair(rnd, slots, D):
     return {"E": list(eb), "v": bv}, {"E": list(ec), "v": cv}
 
 
+def dec(v, D):
+    """integer over D -> decimal string"""
+    sign = "-" if v < 0 else ""
+    digits = len(str(D)) - 1
+    return "%s%d.%0*d" % (sign, abs(v) // D, digits, abs(v) % D)
+
+
 def cause_of(clause, line, item):
     """Normalised description of the kind of failing input (known-finding matching): which baseline made the cell wrong."""
     s, tbl = divmod(line, 10)
@@ -145,13 +153,27 @@ class Check:
 
     def make_item(self, iid, B, C, proc, D):
         it = {"id": iid, "proc": bool(proc), "B": B, "C": C}
-        it.update(self.runner.run(B, C, proc, D))
+        try:
+            it.update(self.runner.run(B, C, proc, D))
+        except tlc.MachineryError:
+            raise
+        except Exception as ex:  # pylint: disable=broad-except
+            # the comparison of two well-formed stored results did not produce a table at all
+            sig = {"clause": "ComparisonCompletes", "cause": type(ex).__name__}
+            key = tuple(sorted(sig.items()))
+            self.counts[key] = self.counts.get(key, 0) + 1
+            if key not in self.seen:
+                case = {"B": B, "C": C, "proc": bool(proc), "D": D, "line": 0, "clause": "ComparisonCompletes"}
+                self.seen[key] = ((False, 0, 0), Violation("ComparisonCompletes", case, signature=sig, detail="comparing two stored races raised %s: %s" % (type(ex).__name__, ex)))
+            return None
         return it
 
     def validate(self, items, D, name):
         if not items:
             return
+        t0 = time.time()
         v = tracecheck.validate("Compare", "TraceCompare", "TraceCompare.cfg", items, name=name, chunk=150, cfg_text=trace_cfg(D, self.sw), timeout=1200)
+        self.out.note("C2S %s: %d items validated by TLC in %.1fs" % (name, len(items), time.time() - t0))
         self.out.traces_validated += v.accepted(len(items))
         index = {it["id"]: it for it in items}
         for tid, fails in v.l1.items():
@@ -164,23 +186,27 @@ class Check:
                     sig = {"clause": cl, "cause": cause}
                     if cause == "other":
                         sig["group"] = group
+                    if cl == "Pairing":
+                        raise tlc.MachineryError("harness pairing of swapped rows rejected by TLC for %s" % tid)
                     key = tuple(sorted(sig.items()))
                     self.counts[key] = self.counts.get(key, 0) + 1
-                    if key in self.seen:
+                    # one witness per signature; prefer ordinary metrics and plainly non-zero values over exotic ones
+                    score = (group == "disk", -min(abs(bc[0]), abs(bc[1]), 3 * D) if bc else 0, -min(abs(bc[0]) + abs(bc[1]), 3 * D) if bc else 0)
+                    if key in self.seen and self.seen[key][0] <= score:
                         continue
-                    self.seen[key] = True
                     metric = ci.label(self.slots[s - 1]) if s else ("(table)", "")
                     row = next((r for r in it["fwd" if line % 10 == 1 else "swp"] if r["s"] == s), None) if s and line % 10 in (1, 2) else None
-                    detail = "%s, metric %r: baseline=%s contender=%s (over %d)%s" % (
-                        TABLES.get(line % 10, "?"), metric, bc[0] if bc else "-", bc[1] if bc else "-", D,
+                    detail = "%s, metric %r: baseline=%s contender=%s [display units]%s" % (
+                        TABLES.get(line % 10, "?"), metric, dec(bc[0], D) if bc else "-", dec(bc[1], D) if bc else "-",
                         " printed diff=%s%d.%0*d [%s] diff%%=%s%d.%0*d%% [%s]" % (
                             row["d"]["sg"], row["d"]["ip"], max(1, row["d"]["nd"]), row["d"]["fp"], row["dc"],
                             row["p"]["sg"], row["p"]["ip"], max(1, row["p"]["nd"]), row["p"]["fp"], row["pc"]) if row else "",
                     )
                     case = {"B": it["B"], "C": it["C"], "proc": it["proc"], "D": D, "line": line, "clause": cl}
-                    self.out.violations.append(Violation(cl, case, signature=sig, detail=detail))
+                    self.seen[key] = (score, Violation(cl, case, signature=sig, detail=detail))
         for tid, lines in v.l2.items():
-            self.out.drift.append("case %s: %s differ(s) from the transcription of ComparisonReporter" % (tid, ", ".join(TABLES.get(ln % 10, "?") for ln in sorted(set(lines)))))
+            what = sorted({"%s%s" % (TABLES.get(ln % 10, "?"), " row %r" % (ci.label(self.slots[ln // 10 - 1]),) if ln >= 10 else "") for ln in lines})
+            self.out.drift.append("case %s: %s differ(s) from the transcription of ComparisonReporter" % (tid, "; ".join(what[:3])))
 
 
 def run(ctx, out):
@@ -223,37 +249,45 @@ def run(ctx, out):
     D = 1000000
     items = []
     marks = {"improve": 0, "regress": 0, "neutral": 0, "rows": 0}
-    for st in parse_dump(dump + ".dump" if os.path.exists(dump + ".dump") else dump):
-        if not st["done"]:
-            continue
+    states = [st for st in parse_dump(dump + ".dump" if os.path.exists(dump + ".dump") else dump) if st["done"]]
+    # the dump order depends on TLC's worker scheduling: fix it
+    states.sort(key=lambda st: (sorted(st["variant"]["eb"]), sorted(st["variant"]["ec"]), st["variant"]["shift"], st["variant"]["proc"], tuple(st["pair"])))
+    for st in states:
         for k in marks:
             marks[k] += st["out"][k]
         B = {"E": sorted(st["B"]["E"]), "v": list(st["B"]["v"])}
         C = {"E": sorted(st["C"]["E"]), "v": list(st["C"]["v"])}
         proc = bool(st["variant"]["proc"])
         it = chk.make_item("s%d" % len(items), B, C, proc, D)
+        out.add_case((B, C, proc), nontrivial=bool(it and it["fwd"]))
+        if it is None:
+            continue
         items.append(it)
-        out.add_case((B, C, proc), nontrivial=len(it["fwd"]) > 0)
     out.vacuous = [k for k, n in marks.items() if n == 0]
     out.exhaustive = True
     out.note("leg S2C: %d TLC states run through FileRaceStore + ComparisonReporter (%d rows, marks %s)" % (len(items), sum(len(i["fwd"]) for i in items), marks))
+    if not items:
+        out.violations.extend(v for _, v in chk.seen.values())
+        return
     mid = items[len(items) // 3]
     out.sample({"baseline_entities": mid["B"]["E"], "contender_entities": mid["C"]["E"], "rows": len(mid["fwd"]),
                 "first_rows": [[r["m"], r["t"], r["dt"], r["dc"], r["pt"], r["pc"]] for r in mid["fwd"][:4]]})
     chk.validate(items, D, "c20trace")
 
     # ---- seeded random pairs (C2S only)
-    for gi, (Dr, n) in enumerate(((1000000, 120 if ctx.quick else 1500), (1000, 120 if ctx.quick else 1500))):
+    for gi, (Dr, n) in enumerate(((1000000, 90 if ctx.quick else 800), (1000, 90 if ctx.quick else 800))):
         rnd = random.Random(ctx.seed * 7919 + 20 + gi)
         ritems = []
         for k in range(n):
             B, C = random_struct_pair(rnd, slots, Dr)
             proc = rnd.random() < 0.5
             it = chk.make_item("r%d-%d" % (gi, k), B, C, proc, Dr)
-            ritems.append(it)
-            out.add_case((B, C, proc, Dr), nontrivial=len(it["fwd"]) > 0)
+            out.add_case((B, C, proc, Dr), nontrivial=bool(it and it["fwd"]))
+            if it is not None:
+                ritems.append(it)
         chk.validate(ritems, Dr, "c20rnd%d" % gi)
         out.note("random pairs over D=%d: %d (%d rows)" % (Dr, n, sum(len(i["fwd"]) for i in ritems)))
+    out.violations.extend(v for _, v in chk.seen.values())
     out.extra["l1_failures_by_signature"] = {", ".join("%s=%s" % kv for kv in k): n for k, n in sorted(chk.counts.items())}
     shutil.rmtree(root, ignore_errors=True)
 
@@ -265,7 +299,15 @@ def replay(ctx, case):
     runner = ci.Runner(res, root)
     sw = probe_switches(runner)
     it = {"id": "replay", "proc": bool(case["proc"]), "B": case["B"], "C": case["C"]}
-    it.update(runner.run(case["B"], case["C"], case["proc"], case["D"]))
+    try:
+        it.update(runner.run(case["B"], case["C"], case["proc"], case["D"]))
+    except tlc.MachineryError:
+        raise
+    except Exception as ex:  # pylint: disable=broad-except
+        print("VIOLATION property=C20 clause=ComparisonCompletes comparing the two stored races raised %s: %s" % (type(ex).__name__, ex))
+        return 1
+    if case.get("clause") == "ComparisonCompletes":
+        return 0
     v = tracecheck.validate("Compare", "TraceCompare", "TraceCompare.cfg", [it], name="c20replay", cfg_text=trace_cfg(case["D"], sw))
     hit = False
     for _, fails in v.l1.items():
